@@ -132,12 +132,18 @@ func check(c Case, o *pbt.Obs) *pbt.Failure {
 		if hang {
 			timeout = 50 * time.Millisecond
 		}
-		ctx, cancel := context.WithTimeout(context.Background(), timeout)
+		ctx, cancel := context.WithTimeout(context.WithValue(context.Background(), lite.TagKey{}, rep), timeout)
 		res, err := entry.Dataset.Search(ctx, amath.Vector(c.Query), uint(c.K))
 		cancel()
 		// wait for workers still unwinding (cancelled / hung ones end promptly after cancel)
 		time.Sleep(200 * time.Microsecond)
-		calls, _ := cl.Calls()
+		allCalls, _ := cl.Calls()
+		var calls []*lite.SearchCall
+		for _, call := range allCalls {
+			if call.Tag == rep { // stragglers of earlier repeats are not this search's workers
+				calls = append(calls, call)
+			}
+		}
 		if len(calls) > workersMax {
 			workersMax = len(calls)
 		}
